@@ -11,7 +11,9 @@ Requests (one reply line each; lines meant for the C++ harness only are answered
   case <id>                                   reset
   doc <k> <tokens…>                           document k (0 = main source), see Concrete.parseDoc
   sheet <sid> <parent|->                      stylesheet module (sid 0 = root; parent imports it, in this order)
-  decl <sid> <name> <pattern> <use>           xsl:key in module sid
+  decl <sid> <qname> <pattern> <use> <nsctx>  xsl:key in module sid; the name as written and the namespace declarations in
+                                              scope on the element (`p=uri;…;=default-uri`, `-` none): expanded per XSLT 2.4
+                                              (every `call` line ends with the <nsctx> of its key() call likewise)
   call <ctxdoc> <curdoc> <p|u> <top|pred> <name> str <value|->
                                               key(name, 'value') with the XPath context node in document ctxdoc while the
                                               XSLT current node is in document curdoc; p = the name is written with a prefix;
@@ -122,15 +124,19 @@ def step (s : St) : List String → St × String
     match sid.toNat? with
     | some sid => ({ s with sheets := s.sheets ++ [(sid, par.toNat?)] }, "ok")
     | none => (s, "bad")
-  | ["decl", sid, name, pat, use] =>
+  | ["decl", sid, lex, pat, use, nctx] =>
+    -- the name as written plus the namespace declarations in scope on the xsl:key element: expanded per XSLT 2.4
+    let name := resolveObjectName (parseNsContext nctx) lex
     match sid.toNat?, parsePattern pat with
     | some sid, some p => ({ s with decls := s.decls ++ [(sid, name, p, parseUse use)] }, "ok")
     | _, _ => ({ s with bad := true }, "bad decl")
-  | ["call", d, cur, pu, form, name, "str", v] =>
+  | ["call", d, cur, pu, form, lex, "str", v, nctx] =>
+    let name := resolveObjectName (parseNsContext nctx) lex
     match d.toNat?, cur.toNat? with
     | some d, some cur => ({ s with calls := ⟨d, cur, pu == "p", form == "pred", name, .str (unval v)⟩ :: s.calls }, "ok")
     | _, _ => (s, "bad")
-  | ["call", d, cur, pu, form, name, "ns", ad, pat] =>
+  | ["call", d, cur, pu, form, lex, "ns", ad, pat, nctx] =>
+    let name := resolveObjectName (parseNsContext nctx) lex
     match d.toNat?, cur.toNat?, (ad.splitOn "+").mapM String.toNat?, parsePattern pat with
     | some d, some cur, some ad, some p =>
       ({ s with calls := ⟨d, cur, pu == "p", form == "pred", name, .ns ad p⟩ :: s.calls }, "ok")
